@@ -768,7 +768,10 @@ def find_calling_convention_errors(context: IRContext) -> list[VenomError]:
                 arities = ret_arities[callee]
 
                 if len(arities) == 0:
-                    expected_num = 0
+                    # the callee has no `ret` at all: it never returns (e.g. it
+                    # raises on every path), so control never comes back to
+                    # the invoke and the number of outputs it binds is moot
+                    continue
                 elif len(arities) == 1:
                     expected_num = next(iter(arities))
                 else:
